@@ -1550,6 +1550,10 @@ class TermBuilder:
             return simplify(("op", name, tuple(args)))
         if name in ("min", "max") and len(args) == 2:
             return simplify(("op", name, tuple(args)))
+        if name in ("saturating_add", "saturating_sub", "saturating_mul") and len(args) == 2 and decl.split("::")[0] in ("usize", "u64"):
+            # 64-bit bookkeeping arithmetic made saturating: equal to the exact operation on every input on which the exact operation
+            # did not overflow (a 64-bit counter of events does not; an underflowing `-` panicked or wrapped before)
+            return simplify(("op", {"saturating_add": "Add", "saturating_sub": "Sub", "saturating_mul": "Mul"}[name], tuple(args)))
         if name in INT_METHODS and (decl.startswith("core::num::") or decl.startswith("std::num::") or decl.split("::")[0] in ("usize", "u64", "u32", "u8", "u16", "i32", "i64", "isize")):
             return simplify(("op", name, tuple(args)))
         if name == "size_of":
